@@ -1048,6 +1048,21 @@ class PrimMixin:
         if kind != h.kind:
             i = z3.Int("i!c")
             t = z3.Lambda([i], self.coerce_term(t[i], h.kind, kind))
+        newdid = getattr(dt, "did", None)
+        if newdid is not None and kind == h.kind:
+            own = self.arr_attr(a, h, "dtype", st, fr, node).did
+            same = z3.simplify(own == newdid)
+            if not z3.is_true(same):
+                # conversion to another concrete dtype of the same model kind: value-preserving only if the dtypes are equal
+                conv = z3.Function("astype!conv!" + kind, I, SORTS[kind], SORTS[kind])
+                i = z3.Int("i!c")
+                t = z3.Lambda([i], z3.If(same, t[i], conv(newdid, t[i])))
+                self.use("astype to the dtype of another array: an arbitrary (uninterpreted) conversion unless the two dtypes are equal")
+                r = st.alloc(HArr(kind, n, t, org=None, fresh=True, unit=h.unit))
+                ids = dict(st.ghost.get("dtids", {}))
+                ids[r.id] = newdid
+                st.ghost["dtids"] = ids
+                return r
         org = None
         if kind == h.kind:
             try:
@@ -1133,6 +1148,27 @@ class PrimMixin:
         if self.is_arr(a, st) or self.is_arr(b, st):
             raise Unsupported("array arctan2", node)
         return self.ufun("arctan2", [a, b], st, fr, node)
+
+    def np_any(self, args, kw, st, fr, node):
+        v = args[0]
+        if not self.is_arr(v, st):
+            return truth(v)
+        n, t = self.arr_term(st, v)
+        i = fresh("i", I)
+        el = t[i] if st.get(v).kind == "bool" else (t[i] != 0)
+        return z3.Exists([i], z3.And(i >= 0, i < to_z3(n, "int"), el))
+
+    def np_all(self, args, kw, st, fr, node):
+        v = args[0]
+        if not self.is_arr(v, st):
+            return truth(v)
+        n, t = self.arr_term(st, v)
+        i = fresh("i", I)
+        el = t[i] if st.get(v).kind == "bool" else (t[i] != 0)
+        return z3.ForAll([i], z3.Implies(z3.And(i >= 0, i < to_z3(n, "int")), el))
+
+    nd_any = np_any
+    nd_all = np_all
 
     def np_size(self, args, kw, st, fr, node):
         return self.getattr(args[0], "size", st, fr, node)
